@@ -1,5 +1,6 @@
-(* No run ends beyond the end of the text, provided the primitives do not (they cannot: they
-   consume characters of the text).  Proofs only. *)
+(* A barrier: if no primitive consumes across position b, no run that starts at or before b ends
+   beyond it.  With b = the length of the text: no run ends beyond the end of the text (C15); with b = the
+   offset of a byte no token can contain: every success stops at or before that byte (C14).  Proofs only. *)
 From SV Require Import Peg.
 From Coq Require Import Arith Lia.
 Local Open Scope nat_scope.
@@ -12,23 +13,24 @@ Variable cond : N -> A -> bool.
 Variable dirflag : A -> bool.
 Variable inp : list N.
 Variable g : list prod.
+Variable bar : nat.                (* the barrier *)
 Notation run := (run A prim act cond dirflag inp g).
 Notation pstate := (pstate A).
 
-Hypothesis prim_bound : forall i a p n, prim i a p = Some n -> p + n <= length inp.
+Hypothesis prim_bound : forall i a p n, p <= bar -> prim i a p = Some n -> p + n <= bar.
 
 Definition memo_bd (st : pstate) : Prop :=
-  forall n p d fo len, In ((n, p, d), Some (fo, len)) (ps_map A st) -> p + len <= length inp.
+  forall n p d fo len, In ((n, p, d), Some (fo, len)) (ps_map A st) -> p <= bar -> p + len <= bar.
 
 Lemma map_remove_in2 m k x : In x (map_remove m k) -> In x m.
 Proof. induction m as [|[k' v'] m IH]; cbn; [auto|]. destruct (key_eqb k k'); cbn; intuition. Qed.
 
 Lemma memo_insert_bd st n p d v :
-  memo_bd st -> (forall fo len, v = Some (fo, len) -> p + len <= length inp) -> memo_bd (memo_insert A st (n, p, d) v).
+  memo_bd st -> (forall fo len, v = Some (fo, len) -> p <= bar -> p + len <= bar) -> memo_bd (memo_insert A st (n, p, d) v).
 Proof.
   intros H Hv. unfold memo_bd, memo_insert.
   destruct (ps_cap A st) as [size|]; [destruct (Nat.ltb (size - 1) (length (ps_keys A st))); [destruct (ps_keys A st)|]|];
-    cbn [ps_map]; intros n' p' d' fo len [E|Hin];
+    cbn [ps_map]; intros n' p' d' fo len [E|Hin] Hle;
     try (injection E as -> -> -> ->; eapply Hv; eauto; fail);
     repeat (apply map_remove_in2 in Hin); eapply H; eauto.
 Qed.
@@ -48,11 +50,11 @@ Proof.
 Qed.
 
 Definition bd (r : res * pstate) (p : nat) : Prop :=
-  memo_bd (snd r) /\ match fst r with Ok _ q => p <= q <= length inp | _ => True end.
+  memo_bd (snd r) /\ match fst r with Ok _ q => p <= q <= bar | _ => True end.
 
 Ltac bsplit := split; cbn [fst snd]; try exact I; auto.
 
-Theorem run_bd : forall fuel e p rf st, memo_bd st -> p <= length inp -> bd (run fuel e p rf st) p.
+Theorem run_bd : forall fuel e p rf st, memo_bd st -> p <= bar -> bd (run fuel e p rf st) p.
 Proof.
   induction fuel as [|f IH]; intros e p rf st Hm Hp.
   { split; [exact Hm|exact I]. }
@@ -64,17 +66,17 @@ Proof.
     destruct (p_packrat pr); [|exact Hbody].
     destruct (map_get (ps_map A st) (n, p, dirflag (ps_aux A st))) as [[[fo len]|]|] eqn:Eg.
     + apply map_get_in2 in Eg as (k' & Ek & Hin). apply key_eqb_true2 in Ek. subst k'.
-      bsplit. specialize (Hm _ _ _ _ _ Hin). lia.
+      bsplit. specialize (Hm _ _ _ _ _ Hin Hp). lia.
     + bsplit.
     + destruct (if p_rec pr then _ else _) as [r st'] eqn:Er. destruct Hbody as [H1 H2]. cbn [fst snd] in *.
       destruct r as [fo q| |]; cbn [fst snd].
-      * split; cbn [fst snd]; [|exact H2]. apply memo_insert_bd; [exact H1|]. intros fo' len' [= <- <-]. lia.
+      * split; cbn [fst snd]; [|exact H2]. apply memo_insert_bd; [exact H1|]. intros fo' len' [= <- <-] _. lia.
       * split; cbn [fst snd]; [|exact I]. apply memo_insert_bd; [exact H1|]. discriminate.
       * bsplit.
-  - destruct (prim i (ps_aux A st) p) eqn:Ep; [|bsplit]. bsplit. pose proof (prim_bound _ _ _ _ Ep). lia.
+  - destruct (prim i (ps_aux A st) p) eqn:Ep; [|bsplit]. bsplit. pose proof (prim_bound _ _ _ _ Hp Ep). lia.
   - pose proof (IH e p rf st Hm Hp) as [H1 H2].
     destruct (run f e p rf st) as [[fo q| |] st']; cbn [fst snd] in *; [|bsplit|bsplit]. bsplit.
-  - assert (Hgo : forall l q acc st0, memo_bd st0 -> p <= q <= length inp ->
+  - assert (Hgo : forall l q acc st0, memo_bd st0 -> p <= q <= bar ->
       bd ((fix go (l : list fexp) (q : nat) (acc : list tree) (st : pstate) : res * pstate :=
              match l with
              | [] => (Ok acc q, st)
@@ -126,7 +128,7 @@ Proof.
   - pose proof (IH e p rf st Hm Hp) as [H1 H2].
     destruct (run f e p rf st) as [[fo q| |] st']; cbn [fst snd] in *; [bsplit| |bsplit]. bsplit.
   - destruct (Nat.leb _ _); bsplit.
-  - assert (Hgo : forall l q env st0, memo_bd st0 -> p <= q <= length inp ->
+  - assert (Hgo : forall l q env st0, memo_bd st0 -> p <= q <= bar ->
       bd ((fix go (l : list fexp) (q : nat) (env : list (list tree)) (st : pstate) : res * pstate :=
              match l with
              | [] => (Ok (build t env) q, st)
